@@ -1,16 +1,44 @@
 """C19 — dense matrix storage keeps rows aligned and contents intact across operations."""
 
 
+def _parse(o):
+    """op token -> (register, name, rest); two-register ops have register None"""
+    d = 0
+    if o.startswith("r") and "." in o and o[1:o.index(".")].isdigit():
+        d = int(o[1:o.index(".")])
+        o = o[o.index(".") + 1:]
+    name = o.split(":")[0]
+    return d, name, o
+
+
 def nontrivial(line):
-    # distinct (type, columns, op sequence) with at least one resize after a write
+    # distinct (type, columns, pattern, op sequence) with a resize after a write on the same
+    # register, or a clone_from / clone between registers whose source has been written
     m = line.split(" ", 1)[1] if " " in line else line
     ops = m.split("ops=", 1)[-1].split(";")
-    wrote = False
+    wrote = [False, False, False]
     for o in ops:
-        if o.startswith(("set", "setmc", "fill", "imc", "from:")):
-            wrote = True
-        elif o.startswith("resize") and wrote:
-            return m
+        d, name, rest = _parse(o)
+        p = rest.split(":")
+        try:
+            if name in ("set", "setmc", "fill", "imc") or (name == "from" and len(p) > 1) or (name == "fromx" and len(p) > 2):
+                wrote[d] = True
+            elif name == "resize" and wrote[d]:
+                return m
+            elif name in ("cf", "ct"):
+                if wrote[int(p[2])]:
+                    return m
+            elif name == "swap":
+                a, b = int(p[1]), int(p[2])
+                wrote[a], wrote[b] = wrote[b], wrote[a]
+            elif name == "mv":
+                a, b = int(p[1]), int(p[2])
+                if a != b:
+                    wrote[a], wrote[b] = wrote[b], False
+            elif name in ("new", "cap"):
+                wrote[d] = False
+        except (IndexError, ValueError):
+            pass
     return None
 
 
@@ -18,8 +46,19 @@ def histogram(line):
     f = dict(t.split("=", 1) for t in line.split(" ")[1:] if "=" in t)
     ops = f.get("ops", "").split(";")
     keys = ["T=" + f.get("T", "?"), "C=" + f.get("C", "?"), "len<=%d" % (10 * ((len(ops) + 9) // 10))]
+    regs = set()
     for o in ops:
-        keys.append("op:" + o.split(":")[0])
+        d, name, rest = _parse(o)
+        keys.append("op:" + name)
+        p = rest.split(":")
+        if name in ("cf", "ct", "swap", "mv"):
+            keys.append("two-matrix-op")
+        else:
+            regs.add(d)
+        if name == "fromx" and len(p) > 1:
+            n = len(p[2].split("/")) if len(p) > 2 else 0
+            keys.append("fromx:" + ("honest" if n == int(p[1]) else "fewer" if n < int(p[1]) else "more"))
+    keys.append("registers-used=%d" % len(regs))
     return keys
 
 
@@ -34,24 +73,38 @@ SPEC = dict(
     search_n={"quick": 3000, "thorough": 40000},
     nontrivial=nontrivial,
     histogram=histogram,
-    rule="random operation sequences (new/with_capacity/resize/fill/IndexMut by row and by "
-         "MatrixCoordinates/from_rows/clone/iter_mut; ~4% out-of-range indices and ragged rows) on "
-         "DenseMatrix<T,C>, T in u8/u32/f32/i64, C in 1,5,7,16,21,32,43; after every op rows(), stride(), "
-         "row addresses mod alignment and spacing, ravel() layout and all logical cells are compared with "
-         "the extracted Coq table model, the storage model is compared through abs; finally iter(), "
-         "iter().rev(), ==/clone with same/different padding and one changed cell. Non-trivial: distinct "
-         "(T, C, op list) containing a resize after a write.",
+    rule="operation sequences on a register file of three DenseMatrix<T,C> (T in u8/u32/f32/i64, C in "
+         "1,5,7,16,21,32,43): random ops on any register (new/with_capacity with capacity below, equal to and "
+         "above the row count/resize/reserve/fill/IndexMut by row and by MatrixCoordinates/from_rows/from_rows "
+         "with an iterator whose len() is honest, too large or too small/clone/iter_mut; ~4% out-of-range "
+         "indices and ragged rows) and between registers (clone_from, dst = src.clone(), mem::swap, "
+         "mem::replace), 40% of the cases opened by directed scenarios (clone_from into a shrunk destination "
+         "with spare capacity, with_capacity + resizes crossing the capacity, fill/shrink/grow, lying len(), "
+         "zero-row / zero-capacity matrices, equal cells through different histories), plus the 248 directed "
+         "cases of corpus/C19. After EVERY op, for EVERY register: rows(), stride(), row addresses mod "
+         "alignment and spacing, ravel() length and layout, capacity(), all logical cells, and == / != for all "
+         "9 register pairs; finally per register iter(), iter().rev(), (&m).into_iter(), (&mut m).into_iter(), "
+         "a random next()/next_back() pattern continued past exhaustion on iter()/iter_mut()/into_iter with "
+         "len() after each call, ==/clone, == against a copy with other history/capacity/padding, == after "
+         "one changed cell. PROPFAIL is decided by the extracted checker check_C19 (proved sound and complete "
+         "for the relation trace_ok); DIFF compares with the struct-level model (data vector, separate rows "
+         "field, capacity lower bound, junk padding). Non-trivial: distinct (T, C, pattern, op list) with a "
+         "resize after a write on the same register or a clone_from/clone from a written register.",
     trusted_base=[
-        "Coq 8.16.1 kernel (coqc); vm_compute only in the two Example lemmas; no native_compute",
+        "Coq 8.16.1 kernel (coqc); vm_compute only in the four Example lemmas; no native_compute",
         "extraction: ExtrOcamlBasic only (nat, Z, list, option kept as extracted inductives); OCaml 4.13.1",
-        "hand-written OCaml driver ocaml/dense/driver.ml (parsing, printing, comparison)",
+        "hand-written OCaml driver ocaml/dense/driver.ml (parsing of observations into the checker's records; the "
+        "PROPFAIL decision itself is the extracted check_C19; diagnosis text and DIFF comparison are hand-written)",
         "Rust harness harness/src/bin/dense.rs (op interpreter over the public DenseMatrix API, catch_unwind)",
         "modelled, not verified: dense.rs itself (Vec<Row> with repr(align) rows modelled as rows = C cells + "
         "S-C padding cells holding arbitrary values; Rust's size_of/align rule for repr(align) structs; "
-        "allocator returning align-aligned buffers), Vec capacity (with_capacity/reserve have no logical effect)",
+        "allocator returning align-aligned buffers), Vec capacity (modelled as a lower bound only: with_capacity/"
+        "reserve/resize/clone guarantee at least the requested capacity; growth policy not modelled), "
+        "derive(Clone)'s default clone_from (= assignment of source.clone()), derive(PartialEq) comparing data then rows",
     ],
     assumptions=[
         "size_of::<T>() divides the row alignment (holds for u8/u32/f32/i64 and 32/16)",
-        "padding bytes may hold any value and may change at every operation (universally quantified in the theorem)",
+        "padding bytes and uninitialized rows may hold any value and may change at every operation (universally quantified in the theorems)",
+        "C19_check_sound/complete: the element comparison used by the checker decides equality (Z.eqb for the extracted instance, C19_check_extracted_instance)",
     ],
 )
